@@ -357,7 +357,7 @@ def finish(ctx: Ctx, level="proof", extra_cov=None, assumptions=None):
         "input_distribution": ctx.distribution,
         "refuted_theorems_about_old_variants": ctx.refuted,
         "known_findings_hit": sorted(known_hit),
-        "failures": [f.to_json() for f in ctx.failures][:20],
+        "failures": [_slim(f.to_json()) for f in ctx.failures][:20],
         "notes": ctx.notes,
     }
     if ctx.discharged == 0 or ctx.obligations == 0:
@@ -377,7 +377,19 @@ def finish(ctx: Ctx, level="proof", extra_cov=None, assumptions=None):
         "wall_s": round(time.time() - ctx.t0, 2),
         "violations": len(violations),
     }
-    os.makedirs(os.path.join(VERIF, "evidence"), exist_ok=True)
-    with open(os.path.join(VERIF, "evidence", ctx.pid + ".json"), "w") as f:
+    # the committed evidence directory describes /repo; a run against another tree (VERIF_REPO) writes elsewhere
+    evdir = os.environ.get("VERIF_EVIDENCE_DIR") or (os.path.join(VERIF, "evidence") if os.path.realpath(REPO) == "/repo" else os.path.join(VERIF, "build", "evidence-other-tree"))
+    os.makedirs(evdir, exist_ok=True)
+    with open(os.path.join(evdir, ctx.pid + ".json"), "w") as f:
         json.dump(ev, f, indent=1, default=str)
     return 1 if violations else 0
+
+
+def _slim(obj, limit=4000):
+    """failure records inside the evidence file keep small replays only (the full input is in the replay file)"""
+    try:
+        if len(json.dumps(obj.get("replay"), default=str)) > limit:
+            obj = dict(obj, replay={"note": "input too large for the evidence file: see the replay file", "keys": sorted(obj["replay"]) if isinstance(obj["replay"], dict) else None})
+    except Exception:  # noqa: BLE001
+        obj = dict(obj, replay=None)
+    return obj
